@@ -28,6 +28,7 @@ package interp
 // next itself - through the onstore obligations below; that these are all the writers is the onstore-coverage obligation.
 //@ func Runner.builtin
 //@ props C28
+//@ noauto
 //@ objinv Runner [getopts-state] self.optState.argidx >= 0 && self.optState.runeidx >= 0
 //@ onstore getopts.argidx [nonneg] value >= 0
 //@ onstore getopts.runeidx [nonneg] value >= 0
@@ -63,6 +64,7 @@ package interp
 //@ props C28
 
 //@ func Runner.readLine
+//@ noauto
 //@ props C28 C23
 //@ loop 1 invariant [esc-means-nonempty] implies(esc, len(line) > 0)
 
@@ -76,16 +78,40 @@ package interp
 //@ ensures [variable-invariant] wfArr(result.List, result.Indexes) && result.Kind < expand.KeepValue
 
 //@ func Runner.setVarWithIndex
+//@ noauto
 //@ props C28 C33
 //@ requires [variable-invariant] wfArr(prev.List, prev.Indexes)
 
 //@ func Runner.unsetElem
+//@ noauto
 //@ props C28 C33
 //@ requires [non-empty-name] name != ""
 
 //@ func Runner.assignVal
+//@ noauto
 //@ props C28 C33
 //@ requires [variable-invariant] wfArr(prev.List, prev.Indexes)
 //@ requires [stored-kind] prev.Kind < expand.KeepValue
+//@ returns (rname, out)
+//@ ensures [variable-invariant] wfArr(out.List, out.Indexes)
+//@ loop 1 invariant [variable-invariant] wfArr(prev.List, prev.Indexes)
 //@ loop 2 invariant [array-wf] wfArr(list, indexes) && index >= 0
 //@ loop 3 invariant [array-wf] wfArr(list, indexes) && index >= 0
+
+// Runner.cmd: safety obligations only (the reply of select, the fields of a call, type switches). Two facts come from
+// outside: a parsed assignment has a name (assumed: an AST invariant of the parser), and no words expand to no fields
+// (contract of Runner.fields below).
+//@ func Runner.cmd
+//@ noauto
+//@ props C28
+//@ astinv Assign [parsed-assignments-are-named] self.Name.Value != ""
+//@ stable *cm.(*syntax.CallExpr)
+//@ note stable: the interpreter never writes to the syntax tree it runs (C29); expansions only read it
+//@ loop 1 invariant [alias-index] i >= 0 && implies(len(cm.Args) == 0, len(args) == 0)
+
+//@ func Runner.fields
+//@ props C28
+//@ ensures [no-words-no-fields] implies(len(words) == 0, len(result) == 0)
+
+//@ func tracer.call
+//@ props C28
